@@ -113,6 +113,10 @@ func (p *c02) Run(w *lib.Worker, idx int, r *lib.Rand) lib.Case {
 		outcomes = append(outcomes, o)
 		c.Evals++
 		if o.Panic != "" {
+			if cont && sut.IsDocumentedSchemaPanic(o.Panic) && docHasUnresolvableRef(text) {
+				c.Tags = append(c.Tags, "skipped:known-C07-panic")
+				return c
+			}
 			c.Inconclusive = "panic (see C07): " + lib1(o.Panic)
 			return c
 		}
